@@ -268,7 +268,8 @@ Inv_C12 == AtEnd => /\ Ok(C12a(CX, S, Unchanged)) /\ Ok(C12b(CX, S, Unchanged))
                     /\ Ok(C12c(CX, S, NH.res, NH.h, Unchanged))
                     /\ Ok(C12d(CX, S, NH.res, Unchanged))
 Inv_C13 == /\ (Stable => Ok(C13a(CX, S)) /\ Ok(C13b(CX, S)))
-           /\ (AtCall => TrOK(C13c(pre.s, S, pre.call, pre.res)) /\ TrOK(C13d(pre.s, S)))
+           /\ (AtCall => TrOK(C13c(pre.s, S, pre.call, pre.res)) /\ TrOK(C13d(pre.s, S))
+                         /\ (pre.mis \/ Ok(C13f(CX, pre.s, S))))
            /\ (AtEnd => Ok(C13e(CX, S)))
 (* every schedule, concurrency degree, cleanup timing and iteration order ends like the canonical
    run of the same context *)
